@@ -52,7 +52,7 @@ func (j *c08Job) parse(p *gen.Path) (impl.Func, string) {
 		return f, text
 	}
 	pr := impl.Parse(text, &j.env.Cfg)
-	if len(j.cache) > 20000 {
+	if len(j.cache) > 3000 {
 		j.cache = map[string]impl.Func{}
 	}
 	j.cache[text] = pr.F
